@@ -11,3 +11,42 @@ add("C03", "exploration", "property-based testing of SLG enumeration streams aga
 add("C04", "exploration", "differential testing SLG vs recursive solver on generated programs",
     "Each generated goal solved by both solvers; the property's compatibility relation is the oracle (no reference semantics needed).",
     "Programs are only lowered (not coherence/WF-checked), as the property states; lifetimes erased before comparing substitutions.", "DESIGN.md 2/C04")
+add("C09", "exploration", "generated-input search for non-termination/panics under a deterministic work budget (cfg hook counter)",
+    "Generated growing/cyclic programs, all goal forms, default and reduced limits, solve and solve_multiple: every call must return without panic within 10x the budget that 3x covers the largest honest solve. Cannot prove termination; refutes it within the budget.",
+    "'bounded work' = work-counter budget (goal/type folds, SLG loop iterations, recursive solve_goal entries); recursive solver without cache and on growing programs not judged for budget.", "DESIGN.md 2/C09")
+add("C10", "exploration", "stateful property-based testing: generated goal histories on one solver vs fresh solvers (differential)",
+    "Histories with repetitions on one solver instance per configuration; every answer must equal the fresh-solver answer; recursive cache on/off must agree.",
+    "Rendered answers compared; histories abandoned after an out-of-contract panic.", "DESIGN.md 2/C10")
+add("C11", "fault_enumeration", "enumeration of every interruption schedule of generated cases against an approximation relation + fresh-solver differential",
+    "For each generated (program, goal, solver): callback returns false at the k-th call for every k (cap 48) and always; interrupted answer must be the full answer or a compatible Ambiguous; all follow-up solves equal fresh answers.",
+    "K measured per case; schedules beyond 48 only via 'always false'.", "DESIGN.md 2/C11")
+add("C12", "fault_enumeration", "fault injection at every database call of generated cases (panic), then differential vs fresh solver",
+    "Delegating database panics at the n-th call for every n of a clean solve (cap 120/400), optional second fault; later solves on the same instance must not panic and must equal fresh answers.",
+    "Fault database is harness code; SLG wrong answers after a mid-search panic are a recorded known finding.", "DESIGN.md 2/C12")
+add("C13", "exploration", "metamorphic testing: generated item / where-clause permutations of generated programs",
+    "Original and permuted program text both lowered by chalk; rendered answers per solver must be identical for goals that stay within size limits by construction.",
+    "Goals judged only on non-growing programs (and finite-answer programs for goals with unknowns).", "DESIGN.md 2/C13")
+add("C14", "exploration", "property-based testing of InferenceTable::relate against an independent reference unifier (Robinson + universes + kinds)",
+    "Generated relate histories; success equivalence, MGU equality via canonical state of all variables, residual kinds/universes, lifetime obligations, covariant re-relation.",
+    "Reference unifier in harness/src/ir.rs is trusted; no TyKind::Error.", "DESIGN.md 2/C14")
+add("C15", "exploration", "property-based testing: state invariant over generated relate histories + order symmetry",
+    "Canonical state of all variables before/after every failing relate must be identical; relate(a,b) ok iff relate(b,a) ok.",
+    "State observed through canonicalization on a clone.", "DESIGN.md 2/C15")
+add("C16", "exploration", "metamorphic + round-trip property-based testing of canonicalize / u_canonicalize / instantiate / invert",
+    "Renaming invariance, inconsistent renamings distinguished, pre-unified variables identified, first-occurrence numbering, binder kinds/universes, instantiate/canonicalize and universe round trips, invert mapping — on generated values with type/lifetime/const variables and placeholders.",
+    "Const variables typed usize.", "DESIGN.md 2/C16")
+add("C17", "exploration", "property-based testing of the anti-unifier and may-invalidate via cfg hook with an independent instance-of matcher; algebraic laws of Solution::combine",
+    "Generated answer sequences: every merged answer is an instance of the guidance; may_invalidate=false implies the answer and its instances are covered; combine commutative and non-strengthening.",
+    "Matcher on mirror AST trusted; the anti-unifier may lose variable sharing (only weakens), which is not judged.", "DESIGN.md 2/C17")
+add("C25", "exploration", "property-based testing against a reference de Bruijn calculus + algebraic laws",
+    "Generated types, goals and clauses with bound variables under nested binders: shift/subst compared with an independent mirror calculus and with the substitution laws; no-op folders are the identity.",
+    "Mirror calculus in harness/src/bir.rs trusted.", "DESIGN.md 2/C25")
+add("C26", "exploration", "property-based testing: flags recomputed from a mirror AST",
+    "Generated types over every TyKind / lifetime / const kind; the 15 occurrence flags must equal an independent recursive 'occurs' walk.",
+    "Placeholder-form associated/opaque types make HAS_TY_PROJECTION/HAS_TY_OPAQUE don't-care; STILL_FURTHER_SPECIALIZABLE excluded.", "DESIGN.md 2/C26")
+add("C27", "fault_enumeration", "exhaustive fault enumeration (length x failing position x mode x layout) with drop ledger and counting allocator, plus random larger lengths",
+    "Every element dropped exactly once on Err/panic at every position, none on success, heap balance restored; exhaustive for len <= 12, random up to 200; private functions through the cfg hook and the public Vec/Box TypeFoldable route.",
+    "Reads of freed memory only visible through their effects (ids, allocator imbalance, crash).", "DESIGN.md 2/C27")
+add("C28", "exploration", "property-based testing with a structural validity predicate over all returned solutions",
+    "All solutions and enumerated answers for generated goals (type, lifetime, const, int/float unknowns; nested quantifiers): arity, kinds, bound variables, universes, and applying the substitution.",
+    "Unused binders allowed; constraints may mention any query placeholder.", "DESIGN.md 2/C28")
